@@ -9,6 +9,21 @@ BUILD_GLAS_VERIF = [{"cmd": ["cargo", "build", "--release", "--offline", "-p", "
 MIRI_SYNTAX = {"bin": "mi_syntax", "runner": "miri", "tiers": ["thorough"], "shards": 8, "args": ["--cases", "60"]}
 GLAS_PLAIN = "/verif/target/glas-plain/release/glas"
 GLAS_VERIF = "/verif/target/glas-verif/release/glas"
+# Thorough tier only: sanitizer builds. ThreadSanitizer needs an instrumented standard library (-Zbuild-std on the
+# nightly toolchain; rust-src is installed, everything builds offline); AddressSanitizer is built with the repository's own
+# stable toolchain (RUSTC_BOOTSTRAP=1 only unlocks the -Z flag; the newest nightly no longer compiles rustix 0.37's probe result).
+SAN_TRIPLE = "x86_64-unknown-linux-gnu"
+_TSAN_ENV = {"CARGO_TARGET_DIR": "/verif/target/tsan", "RUSTFLAGS": "-Zsanitizer=thread"}
+_ASAN_ENV = {"CARGO_TARGET_DIR": "/verif/target/asan", "RUSTFLAGS": "-Zsanitizer=address -Cforce-frame-pointers=yes", "RUSTC_BOOTSTRAP": "1"}
+BUILD_VH_TSAN = [{"cmd": ["cargo", "+nightly", "build", "-Zbuild-std", "--target", SAN_TRIPLE, "--release", "--offline", "-p", "vh", "--bin", "m_conc", "--bin", "san_selftest"], "env": _TSAN_ENV}]
+BUILD_SELFTEST_ASAN = [{"cmd": ["cargo", "build", "--target", SAN_TRIPLE, "--release", "--offline", "-p", "vh", "--bin", "san_selftest"], "env": _ASAN_ENV}]
+BUILD_GLAS_TSAN = [{"cmd": ["cargo", "+nightly", "build", "-Zbuild-std", "--target", SAN_TRIPLE, "--release", "--offline", "-p", "glas", "--features", "verif"], "cwd": "$REPO",
+                    "env": dict(_TSAN_ENV, CARGO_TARGET_DIR="/verif/target/glas-tsan")}]
+BUILD_GLAS_ASAN = [{"cmd": ["cargo", "build", "--target", SAN_TRIPLE, "--release", "--offline", "-p", "glas"], "cwd": "$REPO",
+                    "env": dict(_ASAN_ENV, CARGO_TARGET_DIR="/verif/target/glas-asan")}]
+GLAS_TSAN = f"/verif/target/glas-tsan/{SAN_TRIPLE}/release/glas"
+GLAS_ASAN = f"/verif/target/glas-asan/{SAN_TRIPLE}/release/glas"
+TSAN_CONC = {"bin": "m_conc", "runner": "tsan", "tiers": ["thorough"], "shards": 4, "build": BUILD_VH_TSAN}
 BUILD_VTEXT = [{"cmd": ["cargo", "build", "--release", "--offline", "-p", "vtext"]}]
 
 PROPS = {
@@ -299,6 +314,10 @@ PROPS = {
     "C15": {
         "bin": "m_lsp",
         "args": ["--glas-bin", GLAS_PLAIN],
+        "engines": [{"bin": "m_lsp", "share": 1, "args": ["--glas-bin", GLAS_PLAIN]},
+                    # thorough: the same hostile sequences against sanitizer builds of the server (this is the role DESIGN.md first gave to valgrind)
+                    {"bin": "m_lsp", "san": "asan", "tiers": ["thorough"], "shards": 4, "args": ["--glas-bin", GLAS_ASAN], "build": BUILD_GLAS_ASAN + BUILD_SELFTEST_ASAN},
+                    {"bin": "m_lsp", "san": "tsan", "tiers": ["thorough"], "shards": 4, "args": ["--glas-bin", GLAS_TSAN], "build": BUILD_GLAS_TSAN + BUILD_VH_TSAN}],
         "build": BUILD_VH + BUILD_GLAS_PLAIN,
         "level": "fault_enumeration",
         "budget": {"quick": 30, "thorough": 900},
@@ -313,6 +332,8 @@ PROPS = {
             "exactly the model text if all edits were valid; after an invalid edit any of forgotten / edit dropped / LSP-spec clamped application",
             "unknown methods and malformed JSON are the transport library's contract and are not sent",
             "the `gleam` executable is absent (GLEAM_PATH points nowhere): the server runs without its interop child",
+            "sanitizer builds (thorough tier): 4 shards drive an AddressSanitizer build and 4 a ThreadSanitizer build (-Zbuild-std) of the server with the same sequence grammar; any report block in the sanitizer logs "
+            "(heap-use-after-free, overflow, data race ...) is a violation `asan:<class>:<frame>` / `tsan:<class>:<frames>`; leak checking is off (the server leaves through process::exit); each sanitizer's self-test must fire first",
         ],
     },
     "C11": {
@@ -335,7 +356,8 @@ PROPS = {
     "C12": {
         "bin": "m_conc",
         "engines": [{"bin": "m_conc", "share": 1},
-                    {"bin": "mi_conc", "runner": "miri", "tiers": ["thorough"], "shards": 8, "args": ["--rounds", "3"]}],
+                    {"bin": "mi_conc", "runner": "miri", "tiers": ["thorough"], "shards": 8, "args": ["--rounds", "3"]},
+                    TSAN_CONC],
         "build": BUILD_VH,
         "level": "exploration",
         "budget": {"quick": 25, "thorough": 900},
@@ -352,11 +374,16 @@ PROPS = {
             "(d) the snapshots handed out after apply_change returned are checked against the NEW version",
             "8 shards x (1 main + <=4 readers) threads on 16 cores; wall-clock enters only through the generous bounds in (c)",
             "Miri (data-race / UB interpreter) on the smallest scenario: thorough tier",
+            "ThreadSanitizer (thorough tier): the whole scenario engine rebuilt with -Zsanitizer=thread and an instrumented standard library (-Zbuild-std), 4 shards of the same seeded scenarios at native thread counts; every data-race / use-after-free report in the logs is a violation `tsan:<class>:<frames>`; a deliberately racy self-test built the same way must be reported first, else that part is inconclusive",
         ],
     },
     "C16": {
         "bin": "m_lsp",
         "args": ["--glas-bin", GLAS_PLAIN, "--glas-verif-bin", GLAS_VERIF],
+        "engines": [{"bin": "m_lsp", "share": 1, "args": ["--glas-bin", GLAS_PLAIN, "--glas-verif-bin", GLAS_VERIF]},
+                    # thorough: the same races against a ThreadSanitizer build of the server (its reports are read from the sanitizer's log files)
+                    {"bin": "m_lsp", "san": "tsan", "tiers": ["thorough"], "shards": 4, "args": ["--glas-bin", GLAS_PLAIN, "--glas-verif-bin", GLAS_TSAN],
+                     "build": BUILD_GLAS_TSAN + BUILD_VH_TSAN}],
         "build": BUILD_VH + BUILD_GLAS_PLAIN + BUILD_GLAS_VERIF,
         "level": "exploration",
         "budget": {"quick": 30, "thorough": 900},
@@ -372,6 +399,7 @@ PROPS = {
             "(c) a result must equal (normal form) the sequential answer at the version the request was issued against; errors and RequestCancelled are accepted; a result equal to another version's answer or to none is a violation; "
             "(d) after 300 ms of silence the server's text equals the client's final text and the LAST publishDiagnostics per document equals the diagnostics of the final text (ranges converted with the model's UTF-16 arithmetic)",
             "yield points only delay real threads at points where the OS may preempt anyway; their hit counts are in the evidence",
+            "ThreadSanitizer (thorough tier): 4 more shards race the same workload against the server rebuilt with -Zsanitizer=thread -Zbuild-std (hook feature on, seeded delays on); a data race anywhere in the process - glas, salsa, rowan, tokio, async-lsp, parking_lot as this server drives them - is a violation `tsan:data-race:<frames>`; the self-test must fire first",
         ],
     },
     "C17": {
